@@ -149,6 +149,9 @@ func (s *Site) Handler() Handler {
 						e.Commit()
 						fmt.Fprintf(bw, "HTTP/1.1 304 Not Modified\r\nDate: %s\r\n", time.Now().UTC().Format(http.TimeFormat))
 						for _, k := range []string{"Etag", "Last-Modified"} {
+							if hasKey(v.Raw304, k) {
+								continue // the hand-written 304 brings its own
+							}
 							if vs := h[k]; len(vs) > 0 {
 								fmt.Fprintf(bw, "%s: %s\r\n", k, vs[0])
 							}
@@ -256,4 +259,13 @@ func (s *Site) Handler() Handler {
 		}
 		w.Write(body)
 	}
+}
+
+func hasKey(hs []HV, k string) bool {
+	for _, h := range hs {
+		if http.CanonicalHeaderKey(h.K) == k {
+			return true
+		}
+	}
+	return false
 }
